@@ -250,6 +250,19 @@ func c10Run(p c10Params, ch vrt.Chooser, trace bool) (*world.World, *vrt.Exec, *
 				}
 			}
 		}
+		if p.api == "Close+Inbound" {
+			// a connection from the configured peer arrives while Close is in flight
+			vrt.GoWorld("late-inbound", func() {
+				c, err := w.NW.DialIn("10.0.0.2:40077", libAddr)
+				if err != nil {
+					return
+				}
+				r := w.NewRemote(c, "P1")
+				r.Deadline(5 * time.Second)
+				r.Drain()
+				r.Finish()
+			})
+		}
 		if p.api == "Close+AddPeer" {
 			// another goroutine adds a (refused, active) peer P3 while Close is in flight
 			vrt.GoWorld("adder", func() {
@@ -295,6 +308,7 @@ func c10Run(p c10Params, ch vrt.Chooser, trace bool) (*world.World, *vrt.Exec, *
 			o.retT = vrt.Cur().Now()
 			snapshot(false)
 		}
+		_ = p.api
 		w.WaitServeDone()
 		vrt.WaitQuiescent()
 		if p.api == "Close" {
@@ -401,9 +415,12 @@ func c10Scenarios(th bool) []*Scn {
 		if n == 0 {
 			n = e.Steps()
 		}
-		for _, api := range []string{"Close", "DeletePeer", "Close+AddPeer"} {
+		for _, api := range []string{"Close", "DeletePeer", "Close+AddPeer", "Close+Inbound"} {
 			if api == "Close+AddPeer" && si != 5 && si != 8 && si != 0 {
 				continue // out-established, in-established, out-refuse
+			}
+			if api == "Close+Inbound" && si != 0 && si != 1 && si != 4 && si != 10 {
+				continue // out-refuse, out-stall-dial, out-openconfirm, damping: states in which the peer manager is busy or idle
 			}
 			out = append(out, c10Scn(c10Params{si, api, -1}, bound+1))
 			stride := 1
